@@ -1,10 +1,219 @@
 /-
   C05 — property theorems only (helper lemmas live in Lemmas*.lean).
+
+  Objects (see Model.lean / Spec.lean / LemmasRun.lean):
+    runTree d ops    the name-tree FIB model after the history `ops` (root strategy `d`)
+    runHash m d ops  the hash-table FIB model with virtual depth `m` after `ops`
+    runSpec d ops    the abstract table (two finite maps) after `ops`
+    Spec.lpmNextHops / Spec.lpmStrategy   longest-prefix match on the abstract table
+  Histories are arbitrary lists of operations (no length or depth bound); names, faces, costs and
+  strategies are arbitrary.  Only `strategy_lookup_total` needs the history to be one that
+  management can produce (no unset of the root strategy, F-05b).
 -/
-import NdnVerif.C05.Spec
+import NdnVerif.C05.LemmasRun
 namespace Ndn.C05
 
-theorem placeholder_init (d : Name) : (Spec.init d).lpmStrategy [] = some d := by
-  simp [Spec.init, Spec.lpmStrategy, lpm, Spec.stAt, afind]
+/-! ## the specification's lookup *is* longest-prefix match -/
+
+/-- Clause "a next-hop lookup returns exactly the (face, cost) set of the longest registered
+    prefix of that name which has next hops": the spec lookup returns the next hops stored on
+    the prefix `name.take k` where `k` is the largest length with next hops, and nothing if no
+    prefix has next hops. -/
+theorem spec_lookup_is_longest_prefix_match (s : Spec) (name : Name) :
+    (∃ k, k ≤ name.length ∧ s.nhAt (name.take k) ≠ [] ∧
+        (∀ j, k < j → j ≤ name.length → s.nhAt (name.take j) = []) ∧
+        s.lpmNextHops name = s.nhAt (name.take k)) ∨
+    ((∀ j, j ≤ name.length → s.nhAt (name.take j) = []) ∧ s.lpmNextHops name = []) := by
+  rcases lpm_spec s.nhAt (fun h => !h.isEmpty) [] name name.length with ⟨k, h1, h2, h3, h4⟩ | ⟨h1, h2⟩
+  · left
+    refine ⟨k, h1, ?_, ?_, h4⟩
+    · intro e; simp [e] at h2
+    · intro j a b; have := h3 j a b; simpa using this
+  · right
+    exact ⟨fun j hj => by have := h1 j hj; simpa using this, h2⟩
+
+example : (runSpec [] [.ins [⟨8, [97]⟩] 7 10]).lpmNextHops [⟨8, [97]⟩, ⟨8, [98]⟩] = [(7, 10)] := by decide
+
+/-- the same for strategies: the strategy set on the longest prefix that has one -/
+theorem spec_strategy_is_longest_prefix_match (s : Spec) (name : Name) :
+    (∃ k, k ≤ name.length ∧ (s.stAt (name.take k)).isSome ∧
+        (∀ j, k < j → j ≤ name.length → s.stAt (name.take j) = none) ∧
+        s.lpmStrategy name = s.stAt (name.take k)) ∨
+    ((∀ j, j ≤ name.length → s.stAt (name.take j) = none) ∧ s.lpmStrategy name = none) := by
+  rcases lpm_spec s.stAt (fun x => x.isSome) none name name.length with ⟨k, h1, h2, h3, h4⟩ | ⟨h1, h2⟩
+  · left
+    exact ⟨k, h1, h2, fun j a b => by have := h3 j a b; simpa using this, h4⟩
+  · right
+    exact ⟨fun j hj => by have := h1 j hj; simpa using this, h2⟩
+
+example : (runSpec [⟨8, [100]⟩] []).lpmStrategy [⟨8, [97]⟩] = some [⟨8, [100]⟩] := by decide
+
+/-- in every entry each face occurs once (the next hops are a face ↦ cost map) and the abstract
+    listing is exactly the set of prefixes that hold next hops, with exactly those values -/
+theorem spec_listing_exact (d : Name) (ops : List Op) (n : Name) (hops : Hops) :
+    ((n, hops) ∈ (runSpec d ops).listFib ↔ hops ≠ [] ∧ (runSpec d ops).nhAt n = hops) ∧
+    KeysNodup ((runSpec d ops).nhAt n) :=
+  ⟨Spec.mem_listFib (runSpec_inv d ops) n hops, (runSpec_inv d ops).hops n⟩
+
+example : (runSpec [] [.ins [] 7 10, .ins [] 7 3, .ins [] 8 1, .rem [] 8]).listFib = [([], [(7, 3)])] := by decide
+
+/-! ## the name tree refines the specification, for every history -/
+
+/-- After any history the name tree's `FindNextHopsEnc` / `FindStrategyEnc` return exactly what
+    longest-prefix match on the abstract table returns, for every lookup name. -/
+theorem tree_refines_spec (d : Name) (ops : List Op) (name : Name) :
+    (runTree d ops).findNextHops name = (runSpec d ops).lpmNextHops name ∧
+    (runTree d ops).findStrategy name = (runSpec d ops).lpmStrategy name := by
+  obtain ⟨hi, hr1, hr2⟩ := runTree_rel d ops
+  constructor
+  · rw [Tree.findNextHops_eq hi]
+    exact lpm_congr _ _ _ _ _ _ Eq name (fun n => by rw [hr1]) hr1 rfl _
+  · rw [Tree.findStrategy_eq hi]
+    exact lpm_congr _ _ _ _ _ _ Eq name (fun n => by rw [hr2]) hr2 rfl _
+
+example : (runTree [] [.ins [⟨8, [97]⟩] 7 10, .sets [⟨8, [97]⟩, ⟨8, [98]⟩] [⟨8, [115]⟩], .rem [⟨8, [97]⟩] 7]).findNextHops
+    [⟨8, [97]⟩, ⟨8, [98]⟩, ⟨8, [99]⟩] = [] := by decide
+
+/-- The tree's `GetAllFIBEntries` / `GetAllForwardingStrategies` list exactly the entries of the
+    abstract table (as sets; each prefix once). -/
+theorem tree_listing_refines_spec (d : Name) (ops : List Op) :
+    (∀ e, e ∈ (runTree d ops).listFib ↔ e ∈ (runSpec d ops).listFib) ∧
+    (∀ e, e ∈ (runTree d ops).listStrat ↔ e ∈ (runSpec d ops).listStrat) := by
+  obtain ⟨hi, hr1, hr2⟩ := runTree_rel d ops
+  have si := runSpec_inv d ops
+  constructor
+  · rintro ⟨n, hops⟩
+    rw [Tree.mem_listFib hi, Spec.mem_listFib si, hr1]
+  · rintro ⟨n, x⟩
+    rw [Tree.mem_listStrat hi, Spec.mem_listStrat si, hr2]
+
+example : (runTree [] [.ins [⟨8, [97]⟩, ⟨8, [98]⟩] 7 10, .ins [] 1 1, .clr [⟨8, [97]⟩, ⟨8, [98]⟩]]).listFib
+    = [([], [(1, 1)])] := by decide
+
+/-! ## the hash table refines the specification, for every history and every m ≥ 1 -/
+
+/-- After any history, for every virtual depth `m ≥ 1`, the hash table's `FindNextHopsEnc` returns
+    the same (face, cost) set as longest-prefix match on the abstract table (each face once on
+    both sides; the slice order may differ because removal swaps with the last element), and
+    `FindStrategyEnc` returns the same strategy. -/
+theorem hash_refines_spec (m : Nat) (hm : 1 ≤ m) (d : Name) (ops : List Op) (name : Name) :
+    (∀ x, x ∈ (runHash m d ops).findNextHops name ↔ x ∈ (runSpec d ops).lpmNextHops name) ∧
+    KeysNodup ((runHash m d ops).findNextHops name) ∧ KeysNodup ((runSpec d ops).lpmNextHops name) ∧
+    (runHash m d ops).findStrategy name = (runSpec d ops).lpmStrategy name := by
+  obtain ⟨hi, _, hr1, hr2⟩ := runHash_rel m hm d ops
+  have si := runSpec_inv d ops
+  rw [Hash.findNextHops_eq hi, Hash.findStrategy_eq hi]
+  have key := lpm_congr (runHash m d ops).nhAt (runSpec d ops).nhAt (fun h => !h.isEmpty) (fun h => !h.isEmpty) [] []
+    (fun a b => HopsEq a b ∧ KeysNodup a ∧ KeysNodup b) name
+    (fun n => by rw [(hr1 n).isEmpty]) (fun n => ⟨hr1 n, Hash.nhAt_nodup hi n, si.hops n⟩)
+    ⟨HopsEq.refl _, by simp [KeysNodup], by simp [KeysNodup]⟩ name.length
+  refine ⟨fun x => key.1.mem_iff key.2.1 key.2.2 x, key.2.1, key.2.2, ?_⟩
+  exact lpm_congr _ _ _ _ _ _ Eq name (fun n => by rw [hr2]) hr2 rfl _
+
+example : (runHash 2 [] [.ins [⟨8, [97]⟩, ⟨8, [98]⟩, ⟨8, [99]⟩] 7 10, .ins [⟨8, [97]⟩] 8 1,
+    .rem [⟨8, [97]⟩, ⟨8, [98]⟩, ⟨8, [99]⟩] 7]).findNextHops [⟨8, [97]⟩, ⟨8, [98]⟩, ⟨8, [99]⟩, ⟨8, [100]⟩] = [(8, 1)] := by decide
+
+/-- The hash table's listings contain exactly the prefixes of the abstract table, each with the
+    same face ↦ cost map / the same strategy. -/
+theorem hash_listing_refines_spec (m : Nat) (hm : 1 ≤ m) (d : Name) (ops : List Op) :
+    (∀ n hops, (n, hops) ∈ (runHash m d ops).listFib →
+        ∃ hops', (n, hops') ∈ (runSpec d ops).listFib ∧ ∀ x, x ∈ hops ↔ x ∈ hops') ∧
+    (∀ n hops', (n, hops') ∈ (runSpec d ops).listFib →
+        ∃ hops, (n, hops) ∈ (runHash m d ops).listFib ∧ ∀ x, x ∈ hops ↔ x ∈ hops') ∧
+    (∀ e, e ∈ (runHash m d ops).listStrat ↔ e ∈ (runSpec d ops).listStrat) := by
+  obtain ⟨hi, _, hr1, hr2⟩ := runHash_rel m hm d ops
+  have si := runSpec_inv d ops
+  refine ⟨?_, ?_, ?_⟩
+  · intro n hops hmem
+    obtain ⟨hne, hh⟩ := (Hash.mem_listFib hi n hops).mp hmem
+    refine ⟨(runSpec d ops).nhAt n, (Spec.mem_listFib si n _).mpr ⟨?_, rfl⟩, ?_⟩
+    · intro e
+      have := (hr1 n).isEmpty
+      rw [hh, e] at this
+      cases hops with
+      | nil => exact hne rfl
+      | cons _ _ => simp at this
+    · intro x
+      have := (hr1 n).mem_iff (Hash.nhAt_nodup hi n) (si.hops n) x
+      rw [hh] at this; exact this
+  · intro n hops' hmem
+    obtain ⟨hne, hh⟩ := (Spec.mem_listFib si n hops').mp hmem
+    refine ⟨(runHash m d ops).nhAt n, (Hash.mem_listFib hi n _).mpr ⟨?_, rfl⟩, ?_⟩
+    · intro e
+      have := (hr1 n).isEmpty
+      rw [hh, e] at this
+      cases hops' with
+      | nil => exact hne rfl
+      | cons _ _ => simp at this
+    · intro x
+      have := (hr1 n).mem_iff (Hash.nhAt_nodup hi n) (si.hops n) x
+      rw [hh] at this; exact this
+  · rintro ⟨n, x⟩
+    rw [Hash.mem_listStrat hi, Spec.mem_listStrat si, hr2]
+
+example : (runHash 1 [] [.ins [⟨8, [97]⟩] 7 10, .ins [⟨8, [97]⟩] 8 1, .ins [⟨8, [97]⟩] 9 1, .rem [⟨8, [97]⟩] 7]).listFib
+    = [([⟨8, [97]⟩], [(9, 1), (8, 1)])] := by decide
+
+/-! ## the two implementations are observationally identical -/
+
+/-- For every history, every `m ≥ 1` and every lookup name the name tree and the hash table
+    return the same (face, cost) set and the same strategy, and list the same prefixes. -/
+theorem tree_hash_observationally_equal (m : Nat) (hm : 1 ≤ m) (d : Name) (ops : List Op) (name : Name) :
+    (∀ x, x ∈ (runTree d ops).findNextHops name ↔ x ∈ (runHash m d ops).findNextHops name) ∧
+    (runTree d ops).findStrategy name = (runHash m d ops).findStrategy name ∧
+    (∀ n, (∃ hops, (n, hops) ∈ (runTree d ops).listFib) ↔ (∃ hops, (n, hops) ∈ (runHash m d ops).listFib)) ∧
+    (∀ e, e ∈ (runTree d ops).listStrat ↔ e ∈ (runHash m d ops).listStrat) := by
+  obtain ⟨t1, t2⟩ := tree_refines_spec d ops name
+  obtain ⟨h1, _, _, h4⟩ := hash_refines_spec m hm d ops name
+  obtain ⟨l1, l2⟩ := tree_listing_refines_spec d ops
+  obtain ⟨g1, g2, g3⟩ := hash_listing_refines_spec m hm d ops
+  refine ⟨fun x => by rw [t1]; exact (h1 x).symm, by rw [t2, h4], ?_, fun e => (l2 e).trans (g3 e).symm⟩
+  intro n
+  constructor
+  · rintro ⟨hops, hmem⟩
+    obtain ⟨hops2, hm2, _⟩ := g2 n hops ((l1 _).mp hmem)
+    exact ⟨hops2, hm2⟩
+  · rintro ⟨hops, hmem⟩
+    obtain ⟨hops2, hm2, _⟩ := g1 n hops hmem
+    exact ⟨hops2, (l1 _).mpr hm2⟩
+
+/-! ## the root always has a strategy -/
+
+/-- Clause "the root always has one: it can be replaced but not unset": on every history that
+    management can produce (no unset of the root), every strategy lookup returns a strategy —
+    in the abstract table, hence (previous theorems) in both implementations. -/
+theorem strategy_lookup_total (d : Name) (ops : List Op) (hadm : ∀ op ∈ ops, op.admissible = true) (name : Name) :
+    ((runSpec d ops).lpmStrategy name).isSome ∧ ((runTree d ops).findStrategy name).isSome ∧
+    ∀ m, 1 ≤ m → ((runHash m d ops).findStrategy name).isSome := by
+  have root : ∀ ops : List Op, (∀ op ∈ ops, op.admissible = true) → ((runSpec d ops).stAt []).isSome := by
+    intro ops
+    induction ops using ops_induction with
+    | h0 => intro _; simp [runSpec, Spec.init, Spec.stAt, afind]
+    | hs ops op ih =>
+      intro h
+      have h1 := ih (fun o ho => h o (List.mem_append_left _ ho))
+      have h2 := h op (by simp)
+      rw [runSpec_snoc, Spec.stAt_apply]
+      cases op with
+      | sets m x => simp only [stStep]; split <;> simp [h1]
+      | unsets m =>
+        simp only [stStep]
+        have : m ≠ [] := by intro e; subst e; simp [Op.admissible] at h2
+        simp [this, h1]
+      | ins m f c => exact h1
+      | rem m f => exact h1
+      | clr m => exact h1
+  have hs : ((runSpec d ops).lpmStrategy name).isSome := by
+    rcases spec_strategy_is_longest_prefix_match (runSpec d ops) name with ⟨k, _, h2, _, h4⟩ | ⟨h1, _⟩
+    · rw [h4]; exact h2
+    · have := h1 0 (by omega)
+      have r := root ops hadm
+      simp only [List.take_zero] at this
+      rw [this] at r; cases r
+  refine ⟨hs, by rw [(tree_refines_spec d ops name).2]; exact hs, ?_⟩
+  intro m hm
+  rw [(hash_refines_spec m hm d ops name).2.2.2]; exact hs
+
+example : ((runSpec [⟨8, [100]⟩] [.sets [] [⟨8, [101]⟩], .unsets [⟨8, [97]⟩]]).lpmStrategy [⟨8, [97]⟩]) = some [⟨8, [101]⟩] := by decide
 
 end Ndn.C05
